@@ -60,6 +60,34 @@ class Folder2(Folder):
         f = n.func
         if isinstance(f, ast.Name) and f.id in self.local and callable(self.local[f.id]):
             return self.local[f.id](*self._elts(n.args), **self._kw(n))
+        if isinstance(f, ast.Name) and f.id in ("sorted", "min", "max") and any(k.arg == "key" for k in n.keywords):
+            kw = self._kw(n)
+            if not callable(kw.get("key")):
+                raise NotConst("key is not a function")
+            return {"sorted": sorted, "min": min, "max": max}[f.id](*self._elts(n.args), **kw)
+        if isinstance(f, ast.Name) and f.id == "iter" and len(n.args) == 1 and not n.keywords:
+            return iter(list(self.fold(n.args[0])))  # a one-shot iterator over the elements present now
+        if isinstance(f, ast.Name) and f.id == "next" and 1 <= len(n.args) <= 2 and not n.keywords and "next" not in self.local:
+            it = self.fold(n.args[0])
+            if hasattr(it, "__next__"):
+                try:
+                    return next(it)  # stateful: a stored iterator hands out its elements one by one
+                except StopIteration:
+                    if len(n.args) == 2:
+                        return self.fold(n.args[1])
+                    raise Raised("StopIteration", "next() of an exhausted iterator")
+            if isinstance(it, (list, tuple)):
+                # lazy builtins (filter, map, zip, ...) are folded to lists; next() of a fresh one is its first element
+                if not isinstance(n.args[0], ast.Name):
+                    if it:
+                        return it[0]
+                    if len(n.args) == 2:
+                        return self.fold(n.args[1])
+                    raise Raised("StopIteration", "next() of an empty iterator")
+                raise NotConst("next() of a stored list-like value (neither an iterator nor a fresh lazy builtin)")
+            raise NotConst("next() of a non-iterator")
+        if isinstance(f, ast.Name) and f.id in ("isinstance",) and len(n.args) == 2 and isinstance(n.args[1], ast.Name) and n.args[1].id in ("str", "int", "float", "list", "tuple", "dict", "bytes", "bool"):
+            return isinstance(self.fold(n.args[0]), {"str": str, "int": int, "float": float, "list": list, "tuple": tuple, "dict": dict, "bytes": bytes, "bool": bool}[n.args[1].id])
         if isinstance(f, ast.Attribute):
             if isinstance(f.value, ast.Name) and f.value.id == "itertools" and f.attr == "groupby" and "itertools" not in self.local:
                 return _groupby(*self._elts(n.args), **self._kw(n))
@@ -85,6 +113,13 @@ class Folder2(Folder):
 
 
 _NONE = object()
+
+
+def _gen(self, n):
+    return iter(Folder._f_ListComp(self, n))
+
+
+Folder2._f_GeneratorExp = _gen  # a generator expression is a one-shot iterator (elements computed when it is created)
 
 
 class BlockEval2(BlockEval):
@@ -188,9 +223,6 @@ def func_callable(repo, module: str, fdef: ast.FunctionDef, outer: Optional[Dict
 
     def call(*vals, **kw):
         env: Dict[str, Any] = dict(outer) if outer is not None else {}
-        for k in list(env):
-            if k in BASE:
-                continue
         if len(vals) > len(params):
             raise Unknown(f"arity of {fdef.name}")
         bound = dict(zip(params, vals))
